@@ -20,6 +20,7 @@ func init() {
 		Explanation: "(R1) ClientVersionHandshake and ServerVersionHandshake return nil only on paths where receiving and sending both succeeded and the received major, minor and patch were each tested equal to the local VersionMajor/Minor/Patch constants — all three, on both siblings; " +
 			"(R2, layout agreement) sendVersion writes major/minor/patch big-endian at [0:4), [4:8), [8:12) of a 12-byte array and writes the whole array in one Write; receiveVersion fills the whole array with io.ReadFull (a short read is an error) and decodes the same three ranges into (major, minor, patch) in that order; " +
 			"(R3) receiveAndCompareMagicNumber fills all three bytes with io.ReadFull and compares the whole array with the expected one (==); the client expects the server's number and sends the client's, the server does the reverse, and the two numbers differ; " +
+			"(R3 addition) the client, which speaks second, sends its magic number only after the server's was received and matched — a rejected handshake therefore fails on both sides; " +
 			"(R4) agent.connect hands out the stream only after ClientHandshake and ClientVersionHandshake both returned nil and closes it otherwise; the agent's server side (synchronizer, forwarder) performs ServerHandshake then ServerVersionHandshake before serving, returning on any error. " +
 			"Not decided: behaviour of the transport under corruption (follows from ReadFull/== by inspection).",
 		Assumptions: []string{"io.ReadFull returns an error unless the buffer was filled"},
